@@ -1,4 +1,6 @@
+pub mod hist;
 pub mod parse;
+pub mod subtags;
 
 use crate::mon::{Ctx, Fail};
 
@@ -8,12 +10,25 @@ pub struct Engine {
     pub run: fn(&mut Ctx),
     /// re-run one recorded byte-string case (replay / known-findings)
     pub replay_bytes: Option<fn(&[u8]) -> Vec<Fail>>,
+    /// re-run one recorded structured case
+    pub replay_json: Option<fn(&serde_json::Value) -> Vec<Fail>>,
+}
+
+fn c09_replay_json(v: &serde_json::Value) -> Vec<Fail> {
+    let a = crate::mon::unhex(v["a"]["hex"].as_str().unwrap_or(""));
+    let b = crate::mon::unhex(v["b"]["hex"].as_str().unwrap_or(""));
+    parse::c09_check_pair(v["label"].as_str().unwrap_or("pair"), &a, &b)
 }
 
 pub fn engines() -> Vec<Engine> {
     vec![
-        Engine { name: "c02", prop: "C02", run: parse::run_c02, replay_bytes: Some(parse::c02_check) },
-        Engine { name: "c03", prop: "C03", run: parse::run_c03, replay_bytes: Some(parse::c03_check) },
-        Engine { name: "c13", prop: "C13", run: parse::run_c13, replay_bytes: Some(parse::c13_check) },
+        Engine { name: "c02", prop: "C02", run: parse::run_c02, replay_bytes: Some(parse::c02_check), replay_json: None },
+        Engine { name: "c03", prop: "C03", run: parse::run_c03, replay_bytes: Some(parse::c03_check), replay_json: None },
+        Engine { name: "c04", prop: "C04", run: hist::run_c04, replay_bytes: Some(parse::c04_check), replay_json: Some(hist::c04_replay_json) },
+        Engine { name: "c05", prop: "C05", run: hist::run_c05, replay_bytes: Some(parse::c05_check), replay_json: Some(hist::c05_replay_json) },
+        Engine { name: "c09", prop: "C09", run: parse::run_c09, replay_bytes: Some(parse::c09_check_masks), replay_json: Some(c09_replay_json) },
+        Engine { name: "c10", prop: "C10", run: hist::run_c10, replay_bytes: None, replay_json: Some(hist::c10_replay) },
+        Engine { name: "c13", prop: "C13", run: parse::run_c13, replay_bytes: Some(parse::c13_check), replay_json: None },
+        Engine { name: "c15", prop: "C15", run: subtags::run_c15, replay_bytes: Some(subtags::c15_replay), replay_json: None },
     ]
 }
